@@ -101,7 +101,9 @@ class PersistentRemoteWorker(PersistentWorker, RemoteWorker):
                     logger.debug('New message signalling end of partial results')
                     self._results_pipe.child_end.put(result)
                     last_partial_result_signalled = True
-                    assert remote_counter == counter, f'{remote_counter} {counter}'
+                    if remote_counter != counter:
+                        # the child can be terminated after it has counted a result but before the result is sent
+                        logger.debug('The child has counted {} result(s), {} received', remote_counter, counter)
                     assert value is None
                     assert wid == self.id
                 else:
